@@ -98,6 +98,10 @@ def single_specs():
     out.append([('media', ['print'], [('media', ['not tv'], [st])])])
     out.append([('media', ['print'], [('page', '', ['margin:0 1px'], [])])])
     out.append([('media', ['print'], [])])
+    # names explicitly in no / in any namespace need no @namespace rule, at top level or inside @media, alone or next to a prefixed name
+    out.append([('media', ['print'], [('style', ['|a', 'a:not(|b)'], ['x:a'])])])
+    out.append([('media', ['print'], [('media', ['not tv'], [('style', ['*|a', '|a'], ['x:a'])])])])
+    out.append([('style', ['|a', '*|a', 'p|a'], ['x:a'])])
     for form in ('string', 'url'):
         for media in ([], ['print'], ['print', 'not tv'], ['screen and (min-width:1px)'], ['screen and (min-width:1px)', 'screen and (max-width:5px)'], ['tv and (color)', 'tv']):
             for name in (None, 'n'):
